@@ -2,6 +2,7 @@ package main
 
 import (
 	"go/constant"
+	"regexp"
 	"sort"
 	"fmt"
 	"go/token"
@@ -42,6 +43,9 @@ func (eng *Engine) specForFn(fn *ssa.Function) *FuncSpec {
 }
 
 func (e *Exec) callWith(f *frame, in ssa.Instruction, cc *ssa.CallCommon, fnv Val, args []Val, h *Heap, g string) (Val, *Heap, string) {
+	if e.topSpec != nil && e.specDepth == 0 && e.pure == 0 && e.quiet == 0 {
+		e.atCallAsserts(f, in, cc, fnv, args, h, g)
+	}
 	res, hout, gout := e.callWith0(f, in, cc, fnv, args, h, g)
 	if e.topSpec != nil && e.specDepth == 0 && e.pure == 0 && gout != "false" {
 		hout = e.atCallSets(cc, fnv, args, res, hout, gout, h)
@@ -66,7 +70,7 @@ func (e *Exec) atCallSets(cc *ssa.CallCommon, fnv Val, args []Val, res Val, h *H
 				_, key = calleeKeyOf(fnv.Clo.fn)
 			}
 		}
-		if !strings.HasSuffix(key, c.Callee) {
+		if !matchCallee(key, c.Callee) {
 			continue
 		}
 		e.clauseHit[c] = true
@@ -683,6 +687,8 @@ func (e *Exec) ghostCall(f *frame, in ssa.Instruction, fn *ssa.Function, args []
 		}
 		re := constant.StringVal(c.Value)
 		return B("(str.in_re " + args[0].T + " " + re + ")")
+	case "fpFloor":
+		return B("(fp.roundToIntegral RTN " + args[0].T + ")")
 	case "ult":
 		return B("(bvult " + args[0].T + " " + args[1].T + ")")
 	case "ule":
@@ -905,18 +911,6 @@ func (e *Exec) contractCall(f *frame, in ssa.Instruction, sp *FuncSpec, key stri
 		t := e.evalSpec(e.eng.ld.specFunc(sp, c), args, h, nil)
 		e.addObligation(f, "call-pre", c, fmt.Sprintf("%s.%s@%s%d", short, labelOr(c, "pre"), f.path, ord), g, t, in.Pos())
 	}
-	// call-site assertions declared by the function under verification
-	if e.topSpec != nil && e.specDepth == 0 {
-		for _, c := range e.topSpec.Clauses {
-			if c.Kind != KAssertCall || !(c.Callee == sp.Key || c.Callee == key) || !e.wantClause(c) {
-				continue
-			}
-			top := e.topFrame
-			e.clauseHit[c] = true
-			t := e.evalSpec(e.eng.ld.specFunc(e.topSpec, c), append(append([]Val{}, top.params...), args...), h, nil)
-			e.addObligation(f, "atcall", c, fmt.Sprintf("%s.%s@%s%d", short, labelOr(c, "atcall"), f.path, ord), g, t, in.Pos())
-		}
-	}
 	for _, a := range args {
 		e.escape(a)
 	}
@@ -1106,7 +1100,7 @@ func (e *Exec) overridden(sp *FuncSpec, key string, c *Clause) bool {
 		return false
 	}
 	for _, tc := range e.topSpec.Clauses {
-		if tc.Kind == KAssertCall && tc.Overrides == c.Label && (tc.Callee == sp.Key || tc.Callee == key) {
+		if tc.Kind == KAssertCall && tc.Overrides == c.Label && (tc.Callee == sp.Key || matchCallee(key, tc.Callee) || matchCallee(strings.Replace(key, "::", ".", 1), tc.Callee)) {
 			return true
 		}
 	}
@@ -1248,4 +1242,77 @@ func (e *Exec) isOpaque(fn *ssa.Function) bool {
 		}
 	}
 	return true
+}
+
+var pkgQualRe = regexp.MustCompile(`[A-Za-z0-9_\-./]+\.`)
+
+// matchCallee: a call-site clause names its callee by full key, by a suffix of it, or without package paths.
+func matchCallee(key, pattern string) bool {
+	if key == pattern || strings.HasSuffix(key, pattern) {
+		return true
+	}
+	short := key
+	if i := strings.Index(key, ")."); i >= 0 && strings.HasPrefix(key, "(") {
+		recv := key[1:i]
+		star := ""
+		if strings.HasPrefix(recv, "*") {
+			star, recv = "*", recv[1:]
+		}
+		if j := strings.LastIndex(recv, "."); j >= 0 {
+			recv = recv[j+1:]
+		}
+		short = "(" + star + recv + ")" + key[i+1:]
+	}
+	return short == pattern
+}
+
+func (e *Exec) calleeKey(cc *ssa.CallCommon, fnv Val) string {
+	if cc.IsInvoke() {
+		return "(" + typeKey(cc.Value.Type()) + ")." + cc.Method.Name()
+	}
+	if fn, ok := cc.Value.(*ssa.Function); ok {
+		_, k := calleeKeyOf(fn)
+		return k
+	}
+	if fnv.Clo != nil {
+		_, k := calleeKeyOf(fnv.Clo.fn)
+		return k
+	}
+	if fnv.Fn != nil {
+		_, k := calleeKeyOf(fnv.Fn)
+		return k
+	}
+	return "?"
+}
+
+// atCallAsserts: call-site assertions the contract under verification attaches to calls of a callee.
+func (e *Exec) atCallAsserts(f *frame, in ssa.Instruction, cc *ssa.CallCommon, fnv Val, args []Val, h *Heap, g string) {
+	key := ""
+	for _, c := range e.topSpec.Clauses {
+		if c.Kind != KAssertCall {
+			continue
+		}
+		if key == "" {
+			key = e.calleeKey(cc, fnv)
+		}
+		if !matchCallee(key, c.Callee) {
+			continue
+		}
+		e.clauseHit[c] = true
+		if !e.wantClause(c) {
+			continue
+		}
+		full := append([]Val{}, e.topFrame.params...)
+		if cc.IsInvoke() {
+			full = append(full, fnv)
+		}
+		full = append(full, args...)
+		sf := e.eng.ld.specFunc(e.topSpec, c)
+		if len(sf.Params) != len(full) {
+			panic(fmt.Sprintf("%s:%d: atcall: parameter list does not match the call of %s (%d arguments)", c.File, c.Line, key, len(full)-len(e.topFrame.params)))
+		}
+		e.callOrd["atcall:"+c.Label+key]++
+		t := e.evalSpec(sf, full, h, e.preHeap) // old(...) = state at function entry
+		e.addObligation(f, "atcall", c, fmt.Sprintf("%s.%s@%s%d", shortName(key), labelOr(c, "atcall"), f.path, e.callOrd["atcall:"+c.Label+key]), g, t, in.Pos())
+	}
 }
